@@ -18,6 +18,7 @@ import (
 	"os"
 	"path/filepath"
 	"strconv"
+	"strings"
 	"time"
 
 	"github.com/dappledger/AnnChain/gemmill/types"
@@ -343,9 +344,17 @@ func runCase(run *lib.Run, c int64, base string) {
 	if reached {
 		run.Count("runs_reached_target", 1)
 	}
+	if d := os.Getenv("VERIF_C01_DUMP"); d != "" {
+		// replay aid: the action trace of every case of this profile goes to the file
+		if f, err := os.OpenFile(d, os.O_CREATE|os.O_APPEND|os.O_WRONLY, 0644); err == nil {
+			fmt.Fprintf(f, "=== case %d profile %s powers %v byz %v\n%s\n", c, cc.Profile, cc.Powers, cc.Byz, strings.Join(net.Trace, "\n"))
+			f.Close()
+		}
+	}
 	run.Count("steps", int64(net.Steps))
 	run.Count("byz_votes", int64(adv.ByzVotes))
 	run.Count("byz_proposals", int64(adv.ByzProposals))
+	run.Count("template_amnesia_rejected_proposal_first", int64(adv.RejectedFirst))
 	run.Count("crashes", int64(adv.Crashes))
 	run.Count("duplicates_delivered", int64(adv.Dups))
 	run.Count("timeouts_fired", int64(adv.Fired))
